@@ -112,6 +112,12 @@ def ir_cases(rng, tier, only_wf=True):
                     if ret == 2 and (recv == 2 or args):
                         continue
                     cases.append("1 1 | %s" % " ".join(map(str, method_row(recv, flags, ret, 2, args))))
+    # #[vtbl_only] methods (receiver field +4) keep their declaration-order slot and wrapper; only the forwarding method is absent
+    for pos in range(3):
+        for recv in (0, 1):
+            rows = [method_row(0, 0, 1, 2, [(0, 2)]), method_row(1, 0, 0, 0, []), method_row(0, 0, 4, 3, [(1, 0)])]
+            rows[pos][0] = recv + 4
+            cases.append("1 0 | %s" % " ; ".join(" ".join(map(str, r)) for r in rows))
     n_ex = len(cases)
     nrand = 150 if tier == "quick" else 3000
     for _ in range(nrand):
@@ -190,7 +196,7 @@ def shapes_cases(rng, tier):
 
 def life_cases(rng, tier, with_borrowed=True):
     cases = ["106 | 0 1 ; 1 0 ; 2 0 ; 2 0 ; 7 1 ; 4 0 ; 1 3 ; 7 3", "106 | 0 1 ; 5 0", "106 | 8 5 ; 6 0 ; 6 1 ; 7 0", "106 | 10 7 1 ; 11 0 ; 6 1 ; 12 1 ; 11 3",
-             "106 | 10 7 0 ; 11 0", "106 | 13 4 ; 14 5", "106 | 0 2 ; 2 0 ; 5 0 ; 1 1"]
+             "106 | 10 7 0 ; 11 0", "106 | 13 4 ; 14 5", "106 | 0 2 ; 2 0 ; 5 0 ; 1 1", "106 | 15 -77 ; 1 0 ; 7 0", "106 | 15 -77 ; 15 -77 ; 7 1"]
     if with_borrowed:
         cases.append("106 | 9 3 ; 3 0 ; 3 0 ; 3 0")
     n = 300 if tier == "quick" else 6000
@@ -201,9 +207,11 @@ def life_cases(rng, tier, with_borrowed=True):
             live = [i for i, k in enumerate(kinds) if k != "D"]
             r = rng.below(100)
             if not live or r < 18:
-                c = rng.choice([0, 0, 8, 10, 10] + ([9] if with_borrowed else []))
+                c = rng.choice([0, 0, 8, 10, 10, 15] + ([9] if with_borrowed else []))
                 nid += 1
-                if c == 10:
+                if c == 15:      # a zero-sized instance (it cannot carry an id: every such instance reports -77)
+                    ops.append([15, -77]); kinds.append("H")
+                elif c == 10:
                     e = rng.below(2)
                     ops.append([10, nid, e]); kinds.append("G1" if e else "G0")
                 else:
@@ -280,6 +288,8 @@ def _ir_monitor_row(k, m, r, hdr=None):
         if pos != k: fails.append("method %d sits in vtable slot %d (declaration order broken)" % (k, pos))
         if reprc != 1: fails.append("vtable struct is not #[repr(C)]")
         if abic != 1: fails.append("vtable entry %d is not an extern \"C\" function pointer" % k)
+        vtbl_only = bool(m[0] & 4)
+        m = [m[0] & 3] + list(m[1:])
         if recv != m[0]: fails.append("vtable entry %d takes the container in form %d for receiver kind %d" % (k, recv, m[0]))
         ctys = r[5:5 + 2 * nc]
         i = 5 + 2 * nc
@@ -306,6 +316,8 @@ def _ir_monitor_row(k, m, r, hdr=None):
         i_fetch, i_cont, i_guard, i_first, i_n = r[i:i + 5]; i += 5
         i_convs = r[i:i + i_n]; i += i_n
         i_okout, i_tail, i_unknown = r[i:i + 3]
+        if vtbl_only:
+            return fails if i_unknown == 7 else fails + ["#[vtbl_only] method m%d is forwarded by the trait re-implementation" % k]
         if i_unknown == 7: return fails + ["the trait re-implementation on the opaque object has no method m%d: calls through the object run the trait's default body instead of the vtable slot" % k]
         if i_fetch != 1: fails.append("trait re-implementation of m%d does not fetch vtable slot m%d" % (k, k))
         if i_cont != m[0] or i_first != 1: fails.append("trait re-implementation of m%d passes the container in form %d for receiver kind %d" % (k, i_cont, m[0]))
